@@ -216,7 +216,7 @@ def run_variant(key, base_seed, budget_s, max_runs, workers, agg, known,
                 return False
             next_index += len(idx)
             f = ex.submit(_chunk_task, (key, base_seed, idx, avoid_frac,
-                                        known, shrink_budget, 3,
+                                        known, shrink_budget, 32,
                                         run_timeout, ops_scale))
             pending[f] = idx
             return True
